@@ -9,6 +9,7 @@ from collections import deque
 from typing import TYPE_CHECKING
 from typing import Deque
 from typing import Iterable
+from typing import List
 from typing import Tuple
 
 from .exceptions import JSONPathRecursionError
@@ -121,6 +122,7 @@ class JSONPathRecursiveDescentSegment(JSONPathSegment):
 
             # Randomly choose to visit child nodes now or queue them for later?
             visit_children = random.choice([True, False])  # noqa: S311
+            deferred: List[Tuple[JSONPathNode, int]] = []
 
             for child in _nondeterministic_children(node):
                 if visit_children:
@@ -145,7 +147,22 @@ class JSONPathRecursiveDescentSegment(JSONPathSegment):
                         ]
                     )
                 else:
-                    queue.append((child, depth + 1))
+                    deferred.append((child, depth + 1))
+
+            # Queue the children that were not visited immediately by randomly
+            # interleaving them into the queue, too. Appending them would mean
+            # they can only ever be visited after everything already queued.
+            if deferred:
+                queue = deque(
+                    [
+                        next(n)
+                        for n in random.sample(
+                            [iter(queue)] * len(queue)
+                            + [iter(deferred)] * len(deferred),
+                            len(queue) + len(deferred),
+                        )
+                    ]
+                )
 
     def _raise_for_depth(self, node: JSONPathNode, depth: int) -> None:
         """Raise if _node_ is an array or object nested deeper than the limit."""
